@@ -371,7 +371,15 @@ class Typer:
         if k == "next":
             env = env.copy()
             it = self.type_of(a.iter, env)
-            self._bind(a.target, elem(it), env, None)
+            et = elem(it)
+            if et is None and isinstance(a.target, ast.Name):
+                # a container nothing has been put into yet (this point is visited before the loop that fills it has converged): the body
+                # does not run for it — the variable keeps bottom, which the join with the later, filled state replaces
+                env.pop(a.target.id, None)
+                for k_ in [k_ for k_ in env if k_.startswith(a.target.id + ".")]:
+                    del env[k_]
+            else:
+                self._bind(a.target, et, env, None)
             return Branch({"item": env, None: env})
         if k == "with":
             env = env.copy()
@@ -759,10 +767,19 @@ class Typer:
                     for k in ks:
                         t = self.method_ret(k, m)
                         if t is None:
+                            if self._abstract(k, m):
+                                continue  # the base class only declares it (raise NotImplementedError): the subclasses answer
                             return TOP
                         res = join(res, t)
                     return res if res is not None else TOP
         return TOP
+
+    def _abstract(self, kind, mname):
+        m = self.P.ir_lookup_method(kind, mname)
+        if m is None:
+            return False
+        body = [x for x in m.node.body if not (isinstance(x, ast.Expr) and isinstance(x.value, ast.Constant))]
+        return len(body) == 1 and isinstance(body[0], ast.Raise) and "NotImplementedError" in norm(body[0])
 
     _ret_cache = {}
 
